@@ -6,14 +6,25 @@ namespace PSO.Raft
 
 /-- The demo run ends with leader 0 (term 1, three entries, all committed and applied) and voter 2
 left behind at the initial state. -/
+theorem demo_obs_runs : (run 3 init demoActs).map (fun s => (s.nodes 3).term) = some 0 := by
+  decide +kernel
+
+theorem demo_uptodate_runs : (run 3 init demoActs).map (fun s =>
+    (upToDate (lastTerm (s.nodes 1).log) ((s.nodes 1).log.length - 1) (s.nodes 1).log,
+     upToDate (lastTerm (s.nodes 1).log) ((s.nodes 1).log.length - 1) (s.nodes 2).log)) = some (true, true) := by
+  decide +kernel
+
 theorem demo_lagging : ∃ s, Reachable 3 s ∧ (s.nodes 0).role = .leader ∧ (s.nodes 0).term = 1 ∧
     (s.nodes 2).term = 0 ∧ (s.nodes 0).log.length = 3 ∧ (s.nodes 2).log.length = 1 ∧
-    (s.nodes 0).commit = 2 ∧ (s.nodes 0).applied = 2 := by
-  obtain ⟨s, _, hr, hs⟩ := demo_reachable
+    (s.nodes 0).commit = 2 ∧ (s.nodes 0).applied = 2 ∧ (s.nodes 3).term = 0 := by
+  obtain ⟨s, hrun, hr, hs⟩ := demo_reachable
+  have ho := demo_obs_runs
+  rw [hrun] at ho
+  simp at ho
   refine ⟨s, hr, ?_⟩
   simp [demoSummary] at hs
   obtain ⟨⟨h1, h2, h3, h4, h5⟩, _, ⟨g1, _, _, _, g5⟩⟩ := hs
-  exact ⟨h2, h1, g1, h5, g5, h3, h4⟩
+  exact ⟨h2, h1, g1, h5, g5, h3, h4, ho⟩
 
 /-- (is leader, term, commit, log length, term of the last entry, matchIdx of node 1) of node 0. -/
 def ackSummary (s : State) : Bool × Nat × Nat × Nat × Nat × Nat :=
